@@ -19,7 +19,7 @@ import re
 from fractions import Fraction
 from typing import Dict, List, Optional, Tuple
 
-from ..model import AnalysisError, ClassInfo, FunctionInfo, Model
+from ..model import AnalysisError, ClassInfo, FunctionInfo, Model, dotted
 from ..paths import Path, PathEnumerator, find_calls
 from ..report import Report
 from ..sym import (FALSE, NONE, TRUE, Evaluator, Frame, Outcome, Term, Unsupported, atoms_of, const, lin, number, show, subst, subterms,
@@ -61,6 +61,14 @@ def check(model: Model, rep: Report, tier: str):
     with rep.isolated():
         share_rule(rep, model, t4, "C01.R11", "the duration that enters an operation's equations under the global settings is the setting of its own kind (reset / microwave / "
                    "flux / readout): class -> kind table and kind-books-its-channel agreement (= C10.T4)")
+    with rep.isolated():
+        r13(model, rep)
+    from .c03 import h5
+    from ..resolve import CallGraph
+    with rep.isolated():
+        cg = CallGraph(model)
+        share_rule(rep, model, lambda m, r: h5(m, r, cg), "C01.R12", "the memoised start time returned for an operation is its own: the memo key separates any two links "
+                   "whose start times can differ (= C03.H5)")
 
 
 # ---------------------------------------------------------------------------------------------
@@ -698,6 +706,62 @@ def _alternatives(t: Term, cond: Term):
     if t[0] == "ite":
         return _alternatives(t[2], t_and(cond, t[1])) + _alternatives(t[3], t_and(cond, t_not(t[1])))
     return [(t, cond)]
+
+
+# ---------------------------------------------------------------------------------------------
+def r13(model: Model, rep: Report):
+    """A block's channel listing must keep an ALL identifier next to a specific one of the same qubit (they compare equal by design)."""
+    rep.rule("C01.R13", "the channels a nested block reports (what the implicit-predecessor search matches against) lose nothing to de-duplication: where "
+                        "the listing is de-duplicated through a hash container, ChannelIdentifier's hash distinguishes the channel, so the ALL "
+                        "identifier -- equal to every specific one of its qubit under the relaxed __eq__ -- is never dropped after a specific one")
+    from .c05 import eq_kind, hash_kind
+    CI = model.cls("ChannelIdentifier")
+    sites = []
+    for f in model.all_functions():
+        if f.name != "channel_identifiers" or f.cls is None or "abstractmethod" in f.decorators:
+            continue
+        if not (f.cls.is_subclass_of("ICircuitCompositeOperation") or f.cls.name in ("CircuitGraphBranch", "DeclarativeCircuit") or f.cls.is_subclass_of("GraphBranch")):
+            continue
+        for n in ast.walk(f.node):
+            if isinstance(n, ast.Call):
+                d = dotted(n.func) or ""
+                if d.split(".")[-1] in ("unique_in_order", "set", "frozenset", "fromkeys"):
+                    sites.append((f, n, d))
+    rep.analysed["C01.R13 de-duplicating channel listings"] = [f"{f.qualname}:{n.lineno} {d}" for f, n, d in sites]
+    ek, hk = eq_kind(CI), hash_kind(CI)
+    if ek != "explicit":
+        rep.ok("C01.R13", "ChannelIdentifier[hash]", CI.loc, found=f"eq={ek}: ALL is not equal to a specific channel", required="nothing equal is dropped")
+        return
+    if not sites:
+        rep.ok("C01.R13", "ChannelIdentifier[hash]", CI.loc, found="no block channel listing is de-duplicated through a hash container", required="nothing equal is dropped")
+        return
+    flds = CI.all_fields()
+    ch_fields = [n for n, fi in flds.items() if fi.annotation is not None and "QubitChannel" in ast.unparse(fi.annotation)]
+    if not ch_fields:
+        raise AnalysisError("ChannelIdentifier: the field holding the QubitChannel was not found")
+    ok, why = False, ""
+    if hk == "identity":
+        ok, why = True, "identity hash"
+    elif hk == "fields":
+        bad = [n for n in ch_fields if not (flds[n].compare if flds[n].hash is None else flds[n].hash)]
+        ok = not bad
+        why = "generated from the compared fields " + str([n for n, fi in flds.items() if fi.compare]) if ok else f"the generated hash leaves out {bad}"
+    elif hk.startswith("explicit:"):
+        K = model.cls(hk.split(":", 1)[1])
+        h = K.methods["__hash__"][0]
+        accessors = set(ch_fields) | {n for n, g in ((n, CI.resolve(n)) for n in CI.properties) if g is not None and any(
+            isinstance(x, ast.Attribute) and x.attr in ch_fields for x in ast.walk(g.node))}
+        reads = {x.attr for x in ast.walk(h.node) if isinstance(x, ast.Attribute) and isinstance(x.value, ast.Name) and x.value.id == h.self_name}
+        whole = any(isinstance(x, ast.Call) and (dotted(x.func) or "") in ("astuple", "dataclasses.astuple", "repr", "str") for x in ast.walk(h.node))
+        ok = bool(reads & accessors) or whole
+        why = f"__hash__ reads {sorted(reads)}" + ("" if ok else f", not the channel ({sorted(accessors)})")
+    else:
+        why = f"hash={hk}"
+    f0, n0, d0 = sites[0]
+    rep.check(ok, "C01.R13", "ChannelIdentifier[hash]", CI.loc, found=why, required="the hash separates channels of one qubit",
+              what=f"{f0.qualname} de-duplicates through {d0}; with a hash that ignores the channel the ALL identifier of a qubit is dropped after a specific one, so an "
+                   "operation on another channel of that qubit no longer shares a channel with the block and is not scheduled after it: " + why,
+              detail="channel-hash")
 
 
 # ---------------------------------------------------------------------------------------------
